@@ -91,3 +91,5 @@ Example C18_nonvacuous :
                             JObj [("or", JObj [("left", JObj [("fn", JObj [("name", JStr "isfinite")])]);
                                                ("right", JObj [("unknown", JObj [])])])])])])])].
 Proof. vm_compute. reflexivity. Qed.
+
+Print Assumptions C18_nonvacuous.
